@@ -5,6 +5,7 @@
 
 mod crash;
 mod csvrt;
+mod etrade;
 mod gen;
 mod ledger;
 mod model;
@@ -167,6 +168,33 @@ fn main() {
                 writeln!(w, "{}", serde_json::to_string(r).unwrap()).unwrap();
             }
             println!("csv round trips {}", recs.len());
+        }
+        "etrade-run" => {
+            let out = arg(&args, "--out").expect("--out");
+            let seed: u64 = arg(&args, "--seed").and_then(|s| s.parse().ok()).unwrap_or(1);
+            let scratch = std::path::PathBuf::from(arg(&args, "--scratch").expect("--scratch"));
+            std::fs::create_dir_all(&scratch).unwrap();
+            let mut cases: Vec<(u64, serde_json::Value)> = Vec::new();
+            if let Some(inp) = arg(&args, "--in") {
+                for (n, line) in std::io::BufReader::new(std::fs::File::open(&inp).unwrap()).lines().enumerate() {
+                    let line = line.unwrap();
+                    if !line.trim().is_empty() {
+                        cases.push((n as u64, serde_json::from_str(&line).unwrap()));
+                    }
+                }
+            }
+            if let Some(g) = arg(&args, "--gen") {
+                let g: u64 = g.parse().unwrap();
+                for k in 0..g {
+                    cases.push((1_000_000 + k, etrade::gen_etrade_case(seed, k)));
+                }
+            }
+            let recs = par_map(&cases, threads, |(n, c)| etrade::etrade_record(c, *n, &scratch));
+            let mut w = BufWriter::new(std::fs::File::create(out).unwrap());
+            for r in &recs {
+                writeln!(w, "{}", serde_json::to_string(r).unwrap()).unwrap();
+            }
+            println!("etrade scenarios {}", recs.len());
         }
         "qt-run" => {
             // --in: sheets emitted by MC_Questrade; --gen N: seeded random exports instead
